@@ -205,6 +205,21 @@ C03_Rename(pre, ev, post) ==
             : i \in DOMAIN ev.renames}
     ELSE {}
 
+(* what a body FETCH returns is the message its sequence number / UID names *)
+C03_Fetched(pre, ev, post) ==
+    IF ev.act = "Fetch" /\ ev.status = "OK" /\ ev.sess \in DOMAIN pre.ss
+       /\ Live(post, pre.ss[ev.sess].sel) THEN
+        LET ms == post.mb[pre.ss[ev.sess].sel].msgs
+            its == ev.out[ev.sess]
+        IN UNION {
+             LET it == its[k] IN
+             IF it.k = "FETCH" /\ it.bid # 0 /\ it.infl = "FETCH" THEN
+                (IF it.n \in DOMAIN ms /\ ms[it.n].id # it.bid THEN {"C03.SeqFetchReturnsMessage"} ELSE {})
+                \cup (IF it.uid # 0 /\ ~\E i \in DOMAIN ms : ms[i].uid = it.uid /\ ms[i].id = it.bid
+                      THEN {"C03.UidFetchReturnsMessage"} ELSE {})
+             ELSE {} : k \in DOMAIN its}
+    ELSE {}
+
 (* UIDVALIDITY: vvh is the set of <<name, vv>> incarnations seen so far; an   *)
 (* incarnation continues when name and vv are unchanged, or it is the target  *)
 (* of the rename this event performed.                                        *)
